@@ -751,6 +751,23 @@ func (in *Interp) exec(fr *frame, instr ssa.Instruction, pred bdd.Node, st *Stat
 				fr.vals[x] = iv.Conc
 			}
 		}
+	case *ssa.MakeSlice:
+		lv, ok := in.operand(fr, x.Len).(dom.BV)
+		n, isc := uint64(0), false
+		if ok {
+			n, isc = lv.IsConst()
+		}
+		if !isc || n > maxArrayLeaves {
+			in.undecided(x.Pos(), "make([]T, n) with a non-constant or large length")
+		}
+		in.allocN++
+		r := fmt.Sprintf("alloc#%d", in.allocN)
+		in.roots[r] = &rootInfo{}
+		elem := x.Type().Underlying().(*types.Slice).Elem()
+		for i := 0; i < int(n); i++ {
+			st.Set(r, elemPath("", i), in.zero(elem))
+		}
+		fr.vals[x] = &Slice{Root: r, Lo: 0, Len: C.Const(in.intWidth(), n), Nil: bdd.False}
 	case *ssa.Call:
 		fr.vals[x] = in.callInstr(fr, x, pred, st)
 	default:
@@ -1118,4 +1135,22 @@ func (in *Interp) invoke(recv Value, recvType types.Type, method *types.Func, ar
 		return nil
 	}
 	return res
+}
+
+// SymbolicValue builds a value of type t whose leaves are atoms named
+// prefix+path (used to pass symbolic struct arguments).
+func (in *Interp) SymbolicValue(t types.Type, prefix string) Value {
+	switch u := t.Underlying().(type) {
+	case *types.Struct:
+		s := &Struct{Fields: make([]Value, u.NumFields())}
+		for i := range s.Fields {
+			fd := u.Field(i)
+			s.Fields[i] = in.SymbolicValue(fd.Type(), joinPath(prefix, fd.Name(), fd.Embedded()))
+		}
+		return s
+	}
+	if w, _, ok := in.width(t); ok {
+		return in.C.Atom("Init("+prefix+")", w)
+	}
+	return &Opaque{Why: "symbolic " + prefix}
 }
